@@ -147,6 +147,15 @@ def run(sc):
     viols.append({"class": {"oracle": "sleep_clause", "clause": clause, "kind": kind}, "detail": detail})
 
   force_until = {}
+  dsel_of, qsel_of = [], []
+  for t in range(ntree):
+    dsel_of.append(dof_tree == t)
+    qs = np.zeros(mjm.nq, dtype=bool)
+    for j in range(mjm.njnt):
+      if body_tree[mjm.jnt_bodyid[j]] == t:
+        a = mjm.jnt_qposadr[j]
+        qs[a : a + {0: 7, 1: 4, 2: 1, 3: 1}[int(mjm.jnt_type[j])]] = True
+    qsel_of.append(qs)
   for k in range(K):
     # ---- inputs
     user = np.zeros((nworld, ntree), dtype=bool)
@@ -269,12 +278,7 @@ def run(sc):
                                                  "tree_island": island[w].tolist()})
             break
       for t in range(ntree):
-        dsel = dof_tree == t
-        qsel = np.zeros(mjm.nq, dtype=bool)
-        for j in range(mjm.njnt):
-          if body_tree[mjm.jnt_bodyid[j]] == t:
-            a = mjm.jnt_qposadr[j]
-            qsel[a : a + {0: 7, 1: 4, 2: 1, 3: 1}[int(mjm.jnt_type[j])]] = True
+        dsel, qsel = dsel_of[t], qsel_of[t]
         pa, qa, ma = bool(pre_asleep[w, t]), bool(post_asleep[w, t]), bool(mid_asleep[w, t])
         if pa and qa and not ma:
           # woken by one of the wake passes of forward() and put back to sleep with its island at the end of the same step (a woken tree
